@@ -692,10 +692,13 @@ schema_line(char *line)
 
 		f->flags = 0;
 		t = tok();
-		if (!strcmp(t, "1"))
-			f->flags |= PROTOBUF_C_FIELD_FLAG_PACKED;
-		else if (strcmp(t, "0"))
+		/* bit 0: PACKED, bit 1: DEPRECATED (no effect on behaviour; makes the flags word more than one bit) */
+		if (strlen(t) != 1 || t[0] < '0' || t[0] > '3')
 			drv_fail("bad packed flag");
+		if ((t[0] - '0') & 1)
+			f->flags |= PROTOBUF_C_FIELD_FLAG_PACKED;
+		if ((t[0] - '0') & 2)
+			f->flags |= PROTOBUF_C_FIELD_FLAG_DEPRECATED;
 		t = tok();
 		if (!strcmp(t, "1"))
 			f->flags |= PROTOBUF_C_FIELD_FLAG_ONEOF;
